@@ -10,23 +10,29 @@ _NOTE = ("Trusted: Coq 8.16.1 kernel; extraction (ExtrOcamlBasic) + OCaml 4.13.1
 PROPERTIES = {
     "C04": {
         "text": "Coq model of the scanner subset and of every parseFrom (one-token lookahead, whitespace-mode switches, "
-                "multi-line strings, numeric helpers); theorems (Properties/C04.v): scanner/parser round-trip lemmas for the "
-                "printed source AST (parse_print_partial: kinds and layouts listed in the statement), the unknown-line lemma, "
-                "and refutations of the pre-fix discardLine (F8) and BS_ (F9). On every run a grammar-based generator "
-                "(all 16 definition kinds + unknown lines, layout variants) produces texts with the definitions they denote; "
-                "implementation, extracted model and expectation are compared three ways; P = implementation equals expectation.",
-        "note": _NOTE + " The full round-trip theorem is proved for a subset of kinds/layouts only (see the theorem statement); "
-                        "the remaining kinds are covered by the three-way differential run, which samples the grammar.",
+                "multi-line strings, numeric helpers); theorems (Properties/C04.v): parse_print_partial = parse (print ds) = Ok "
+                "(elaborate ds) for every list of well-formed VERSION, BS_, BU_, BO_ with SG_ lines (plain/M/m<k>) and unknown-line "
+                "definitions in the plain layout (any count and order; positions included), unknown_one (an unknown line yields one "
+                "UnknownDef and does not change how the following lines are parsed), and refutations of the pre-fix discardLine (F8) "
+                "and BS_ (F9). On every run a grammar-based generator (all 16 definition kinds + unknown lines, layout variants) "
+                "produces texts with the definitions they denote; implementation, extracted model and expectation are compared "
+                "three ways; P = implementation equals expectation.",
+        "note": _NOTE + " The round-trip theorem is proved for 5 of the 17 kinds and the plain layout only (statement and list of "
+                        "what is not covered in Properties/C04.v); the remaining kinds and layouts are covered by the three-way "
+                        "differential run, which samples the grammar.",
         "technique": "Coq proof about a Gallina model + differential correspondence of model, code and generator-side denotation",
         "design_ref": "5.4",
     },
     "C12": {
         "text": "Coq theorem parse_total (Properties/C12.v): for EVERY byte list and every non-ASCII classification the model "
                 "parser with fuel length+4 returns Ok or Err with a position inside the input, never Panic (no index operation "
-                "fails) and never OutOfFuel (every loop iteration consumes input); determinism is functional-ness. Locality: "
-                "generated files x definition index x corruption operators checked on the implementation (error not before the "
-                "corrupted definition, Defs() = the preceding definitions) and against the model; arbitrary bytes: outcome "
-                "kind, position and Defs() of two runs under recover()+timeout compared with the model.",
+                "fails) and never OutOfFuel (every loop iteration consumes input); determinism is functional-ness; "
+                "error_local_partial: after well-formed VERSION/BS_/BU_/BO_+SG_/unknown definitions (plain layout) followed by any "
+                "bytes that still begin with a keyword, an error is positioned inside those bytes and Defs() extends the "
+                "definitions of the prefix. Locality on the implementation: generated files (all kinds, all layouts) x definition "
+                "index x corruption operators (error not before the corrupted definition, Defs() = the preceding definitions), "
+                "also compared with the model; arbitrary bytes: outcome kind, position and Defs() of two runs under "
+                "recover()+timeout compared with the model.",
         "note": _NOTE + " What the model cannot show (other runtime panics, real termination time) is covered only by running the "
                         "implementation under recover() and a 2 s timeout. Locality holds for corruptions that leave the first token "
                         "of the corrupted definition scannable (a NUL / invalid UTF-8 byte as the very first byte after a BS_, NS_, BO_ "
